@@ -24,7 +24,7 @@ func TestC02(t *testing.T) {
 
 var c03Cfg = SGenCfg{PingsPct: 25, RFs: allRF, MinOps: 5, MaxOps: 28, FaultPct: 35, SlowFaults: false, RestFail: true,
 	W: map[string]int{"write": 24, "sync": 6, "unmap": 4, "read": 4, "readd": 14, "add": 4, "promote": 8, "remove": 10,
-		"pingfail": 4, "nodedrop": 3, "snapshot": 8, "boot": 2, "reconnect": 3, "setmode": 4, "setmodeseq": 2, "ctlrevert": 4, "iorace": 6}}
+		"pingfail": 4, "nodedrop": 3, "snapshot": 8, "boot": 2, "reconnect": 3, "setmode": 4, "setmodeseq": 2, "ctlrevert": 4, "iorace": 6, "loneboot": 2}}
 
 func TestC03(t *testing.T) {
 	runStackProperty(t, "C03", "TestC03", func(rt *rapid.T) SProgram { return GenSProgram(rt, c03Cfg) },
@@ -34,7 +34,7 @@ func TestC03(t *testing.T) {
 // ---- C04 -------------------------------------------------------------------
 
 var c04Cfg = SGenCfg{RFs: []int{2, 3, 3, 4, 5}, MinOps: 5, MaxOps: 26, FaultPct: 45, SlowFaults: true, MaxSlow: 1,
-	W: map[string]int{"write": 22, "read": 40, "readd": 12, "add": 4, "promote": 5, "remove": 5, "nodedrop": 2, "verifyonly": 5, "snapshot": 3}}
+	W: map[string]int{"write": 22, "read": 40, "readd": 12, "add": 4, "promote": 5, "remove": 5, "nodedrop": 2, "verifyonly": 5, "snapshot": 3, "loneboot": 4}}
 
 func TestC04(t *testing.T) {
 	runStackProperty(t, "C04", "TestC04", func(rt *rapid.T) SProgram { return GenSProgram(rt, c04Cfg) },
@@ -59,7 +59,7 @@ func TestC05(t *testing.T) {
 
 var c18Cfg = SGenCfg{PingsPct: 25, RFs: allRF, MinOps: 5, MaxOps: 30, FaultPct: 35, SlowFaults: false, AllowDup: true, RestFail: true,
 	W: map[string]int{"write": 18, "sync": 3, "read": 10, "readd": 10, "add": 14, "promote": 8, "remove": 10,
-		"pingfail": 3, "nodedrop": 3, "snapshot": 6, "setmode": 6, "setmodeseq": 5, "boot": 4, "reconnect": 6, "errio": 3, "addrace": 5, "ctlrevert": 3}}
+		"pingfail": 3, "nodedrop": 3, "snapshot": 6, "setmode": 6, "setmodeseq": 5, "boot": 4, "reconnect": 6, "errio": 3, "addrace": 5, "ctlrevert": 3, "loneboot": 2}}
 
 func TestC18(t *testing.T) {
 	runStackProperty(t, "C18", "TestC18", func(rt *rapid.T) SProgram { return GenSProgram(rt, c18Cfg) },
